@@ -192,6 +192,17 @@ func (c *RawClient) SendRaw(b []byte) error {
 // Close closes the connection.
 func (c *RawClient) Close() { c.conn.Close() }
 
+// CloseRead shuts down the reading side of the connection (unix and tcp): the
+// client hears nothing any more and what the server writes to it fails, while
+// the connection stays open for what the client sends. It reports whether the
+// transport can do that.
+func (c *RawClient) CloseRead() bool {
+	if h, ok := c.conn.(interface{ CloseRead() error }); ok {
+		return h.CloseRead() == nil
+	}
+	return false
+}
+
 // Frames returns a snapshot of everything received so far.
 func (c *RawClient) Frames() []Frame {
 	c.mu.Lock()
